@@ -459,6 +459,38 @@ def cmpfail_obligations(pid, tier, seed):
     return {'obligations': obs, 'bounds': bounds}
 
 
+# ---------------------------------------------------------------------------
+# C04: commit / abort / reload
+
+def commit_obligations(pid, tier, seed):
+    obs = []
+    t = 300 if tier == 'quick' else 1800
+    sh, bounds = tree_shapes(tier, seed, quick_extra=(4, 1))
+    for impl in ('c', 'py'):
+        for kind, tag, tpl, hist, L, I in sh:
+            m = shapes.n_ranks(tpl)
+            is_set = kind == 'TreeSet'
+            for g in ('write', 'del'):
+                nops = 3 if g == 'write' else (3 if is_set else 4)
+                base = '%s/%s/%s/%s%s/%s/%s' % (pid, impl, kind, tag, '' if (L, I) == (2, 2) else '%d%d' % (L, I), sid(tpl), g)
+                P = dict(family='OO', impl=impl, kind=kind, tpl=tpl, L=L, I=I, group=g, prov='loaded')
+                args = [('x', 'int'), ('op', 'int'), ('ghost', 'bool'), ('cut', 'int')]
+                pre = ['0 <= op < %d' % nops, '0 <= cut < 2']
+                obs.append(dict(id=base, mod='h_txn', fn='commit_step', nk=m, args=args, pre=pre, params=P, timeout=t))
+                # a second transaction on top (commit/abort/none), for shapes that stay small
+                if (tier == 'quick' and tag == 'core' and m <= 3) or (tier != 'quick' and m <= 4):
+                    for g2 in ('write', 'del'):
+                        nops2 = 3 if g2 == 'write' else (3 if is_set else 4)
+                        if tier == 'quick' and m >= 2 and ((g, g2) != ('del', 'write') or is_set):
+                            continue
+                        P2 = dict(P, group2=g2)
+                        obs.append(dict(id=base + '+' + g2, mod='h_txn', fn='commit_step', nk=m,
+                                        args=args + [('y', 'int'), ('op2', 'int'), ('cut2', 'int')],
+                                        pre=pre + ['0 <= op2 < %d' % nops2, '0 <= cut2 < 2'], params=P2, timeout=t))
+    bounds.update(per_condition_timeout_s=t, transactions='one operation + commit|abort; second operation + commit|abort on shapes with <= 4 (quick) / 5 keys')
+    return {'obligations': obs, 'bounds': bounds}
+
+
 COMMON_ASSUME = [
     'key objects are observed by the containers only through rich comparison, identity and None-ness '
     '(true for the object-key templates; native-key families are covered by their own obligations where stated)',
@@ -599,5 +631,22 @@ PROPS = {
                    '_bucket_set, _bucket_get, BTree_findRangeEnd, BTree_rangeSearch, BTree_maxminKey, Bucket_*, set_i*/TreeSet_i*, update',
                    'BTrees._base: _Tree._set/_del/_search/_findbucket, Bucket._set/_del/_search/_range, keys/minKey/maxKey'],
         assumptions=COMMON_ASSUME + ['the fault is raised by key comparisons only (not by value comparison or hashing)'],
+    ),
+    'C04': dict(
+        families=['OO'],
+        gen=lambda tier, seed: commit_obligations('C04', tier, seed),
+        explanation='Each catalogue shape with symbolic keys is stored through a mini object database (harness/minidb.py: real '
+                    'persistent.PickleCache, register/readCurrent/setstate as the real code calls them, commit writes exactly the '
+                    'registered objects plus objects newly reachable from their states). The writer then optionally turns every '
+                    'node into a ghost (solver-chosen), performs one solver-chosen mutating call with a symbolic key, and the '
+                    'transaction is cut by commit or abort (solver-chosen); optionally a second operation and cut follow. After a '
+                    'commit a fresh connection loads the stored records: equal contents, every key found by lookup, both '
+                    'checkers and the walker accept; the writer sees the same. After an abort the writer sees the last committed '
+                    'contents in a sound tree. A missing change notification on any path therefore shows as a stale record.',
+        functions=['_OOBTree.so: PER_CHANGED sites of _bucket_set, bucket_split, Bucket_deleteNextBucket, _BTree_set (changed accumulator), '
+                   'BTree_split, BTree_grow, BTree_getstate/_BTree_setstate, bucket_getstate/_bucket_setstate, _p_deactivate', 'BTrees._base: '
+                   '_Tree._set/_del/_grow/_split (_p_changed), Bucket._set/_del, __getstate__/__setstate__'],
+        assumptions=COMMON_ASSUME + ['harness/minidb.py models the data-manager contract of persistent/ZODB (trusted; ZODB itself is '
+                                     'not installed): optimistic commit of registered + newly reachable objects, invalidation on abort'],
     ),
 }
